@@ -33,6 +33,16 @@ add(P, "admin_unnamed", two, both + [{"a": "AdminPurge", "k": "k1", "d": ""}] + 
 add(P, "purge_after_kill", one, fetch("r1", "k1", "d1") + [{"a": "Kill"}] + purge("p1", "k1", "d1") + ask("r2", "k1", "d1", "ok"))
 add(P, "purge_after_eviction", one, fetch("r1", "k1", "d1") + fetch("r2", "k2", "d1") + purge("p1", "k1", "d1") + ask("r3", "k1", "d1", "ok"))
 add(P, "admin_purge_after_eviction", one, fetch("r1", "k1", "d1") + fetch("r2", "k2", "d1") + [{"a": "AdminPurge", "k": "k1", "d": "d1"}] + ask("r3", "k1", "d1", "ok"))
+# a purge while a fetch is in flight, a request is parked behind it and another request holds the entry it looked up
+# before the purge (it is between the lookup and Get): everybody must come to an end
+held = [{"a": "Start", "p": "r1", "k": "k1", "d": "d1", "m": "GET"}, {"a": "Lookup", "p": "r1"}, {"a": "GetStep", "p": "r1", "res": "notfound"}, {"a": "UpStart", "p": "r1"},
+        {"a": "Start", "p": "r2", "k": "k1", "d": "d1", "m": "GET"}, {"a": "Lookup", "p": "r2"}, {"a": "GetStep", "p": "r2", "res": "none"}, {"a": "ReleaseIf", "p": "r2"},
+        {"a": "Start", "p": "r3", "k": "k1", "d": "d1", "m": "GET"}, {"a": "Lookup", "p": "r3"}] + purge("p1", "k1", "d1") + \
+       [{"a": "GetStep", "p": "r3", "res": "notfound"}, {"a": "ReleaseIf", "p": "r3"}, {"a": "ReleaseIf", "p": "r3"},
+        {"a": "FetchEnd", "p": "r1", "out": "cacheable", "ttl": 2}] + R("r1")
+add(P, "purge_with_waiter_and_holder", two, held)
+two_nostore = json.loads(json.dumps(two)); two_nostore["disps"][0]["store"] = False
+add(P, "purge_with_waiter_and_holder_nostore", two_nostore, [dict(x, res="none") if x.get("a") == "GetStep" else x for x in held])
 json.dump(P, open(os.path.join(here, "purge_directed.json"), "w"), indent=0)
 
 S = []
